@@ -27,6 +27,8 @@ type c01Domain struct {
 	nonEmpty  bool   // values cannot be empty in this format
 	hetero    bool   // the format can carry records with different field names in one stream
 	ascii     bool   // restrict to printable ASCII (column alignment counts characters: keeps UTF-8 decoding out)
+	flags     []string // main-flag variant, parsed by the real cli.FLAG_TABLE after the format is set
+	posNames  bool     // names are the positions "1", "2" (headerless output read back with an implicit header; NIDX)
 }
 
 func c01InDomain(s string, forbidden string) {
@@ -42,13 +44,25 @@ func c01WriteRead(d c01Domain) {
 	o := cli.DefaultOptions()
 	o.ReaderOptions.InputFileFormat = d.format
 	o.WriterOptions.OutputFileFormat = d.format
+	for argi := 0; argi < len(d.flags); {
+		ok, err := cli.FLAG_TABLE.Parse(d.flags, len(d.flags), &argi, o)
+		verifAssert(ok && err == nil, "C01/wr/variant-flags-accepted")
+		if !ok || err != nil {
+			return
+		}
+	}
 	verifAssert(cli.FinalizeReaderOptions(&o.ReaderOptions) == nil && cli.FinalizeWriterOptions(&o.WriterOptions) == nil, "C01/wr/options")
 
 	k1 := verifString("name1", 1)
 	k2 := verifString("name2", 1)
+	if d.posNames {
+		k1, k2 = "1", "2"
+	}
 	v1 := verifString("value1", 2)
 	v2 := verifString("value2", 1)
-	verifAssume(k1 != k2) // names are unique within a record (C12)
+	if !d.posNames {
+		verifAssume(k1 != k2) // names are unique within a record (C12)
+	}
 	c01InDomain(k1, d.forbidden+d.nameExtra)
 	c01InDomain(k2, d.forbidden+d.nameExtra)
 	c01InDomain(v1, d.forbidden)
